@@ -615,7 +615,10 @@ class Q:
                 return f"inconclusive:{verdict}"
             return "agree" if verdict == expected else f"disagree:{verdict}"
         finally:
-            os.unlink(path)
+            try:
+                os.unlink(path)
+            except FileNotFoundError:
+                pass  # the scratch file was removed from outside (e.g. a /tmp clean-up while the run was in progress)
 
     def smt2(self, r):
         s = z3.String("s")
